@@ -825,6 +825,21 @@ def _wide_code_objects() -> frozenset[Any]:
     return _WIDE
 
 
+def deadlock_result(prop: str, e: BaseException, sched: "Scheduler") -> dict[str, Any]:
+    """Verdict of a run that deadlocked among threads / locks the library made itself.  Returned
+    at once: the parked threads still hold the library's locks, so nothing in this process may
+    call into the library again."""
+    sig = f"{prop}/deadlock/call-never-returns"
+    sched.record("violations", [sig])
+    return {"violations": [{"sig": sig, "detail": f"{e} (the same calls complete in a fresh process: "
+                                                   "under this schedule a call into the library never returns)"}],
+            "digest": sched.events.hexdigest()[:32], "evals": 1, "nontrivial": [],
+            "interleaving": sched.interleaving.hexdigest()[:32], "sim_steps": sched.global_step,
+            "switches": sched.switches, "mid_op_switches": sched.mid_op_switches,
+            "sched_mode": sched.mode, "probes": dict(sched.probes),
+            "explicit_schedule": sched.explicit_schedule()}
+
+
 def make_abort_exc(kind: str) -> BaseException:
     if kind == "SimAbort":
         return SimAbort("injected abort")
